@@ -56,9 +56,31 @@ CLAIMED = {
          "Invocation matrix: the 0-source and every 2/3/4-source combination (incl. falsy-but-present sources) must exit 2 with empty stdout; every single source (file, -c, -e, -m; incl. the empty program) x seeded subsets of {--json, --no-normalize, --dis, --dis-after, --source} must exit 0, print repr(api result) (normalized unless --no-normalize), a JSON document that loads back to it, the program text, dis of the compiled program, dis of api_result.to_code(), and --dis-after must show the same instructions as --dis for every code object present in both. Programs include text-level hazards (whitespace-only lines in strings, tabs, continuation lines, non-ASCII) through -c / file / -e and program files given as raw bytes (UTF-8 BOM, PEP 263 cookies, CRLF/CR line ends).",
          "Textual comparison under the same PYTHONHASHSEED; eval() of the printed line only excuses; unparseable output is inconclusive.", "5/C16"),
 }
+COMMON = (" Every workload also runs, per interpreter, in one interpreter-mode twin shard: python -O/-OO -b, warnings issued from the library's "
+          "modules are errors, the library imported as a vendored copy (vnd_pkg.code_data) next to a top-level one; workers run under varied "
+          "PYTHONHASHSEED values; corpora include code objects whose identifiers/texts were rewritten through the AST and whose constants are "
+          "look-alikes of other constants' keys (DESIGN.md section 13a).")
+EXTRA = {
+ "C01": ("", ""),
+ "C02": (" + re-entrant / multi-threaded stress of from_code compared with the sequential results (stress.py)", " The same decodes are repeated re-entrantly (trace hook starting another decode inside a library frame) and from three threads; instruction projections must equal the sequential ones."),
+ "C04": (" + re-entrant / multi-threaded stress (types projection)", ""),
+ "C05": (" + stack-starved calls (60..700 frames left) compared with the unstarved result", " Nested look-alike constant twins are normalized and re-encoded with little stack left: RecursionError is accepted, a returned code object must equal the unstarved one."),
+ "C07": (" + documents reloaded after a transit through another serializer (members sorted / reversed / pretty-printed)", ""),
+ "C09": (" + re-entrant / multi-threaded stress (whole decoded data)", ""),
+ "C10": (" + re-entrant / multi-threaded stress of the codec on real tables", ""),
+ "C11": (" + words outside 0..2^32-1 (negative, wider than the field)", ""),
+ "C12": (" + fingerprint of interpreter-wide state (recursion limit, int digit limit, sys.path, warning filters, cwd, switch interval, environ, trace function, dis.opmap/opname/has* tables, the library's own module globals) around every top-level call + re-entrant / multi-threaded stress of all five API functions + decodes of code objects holding an undefined opcode",
+         " Interleaving is also literal: the five API functions run re-entrantly and from three threads at a 1 microsecond switch interval and must return the sequential results; the process state listed in the technique must be identical before and after every top-level call (first-use imports of the library's own submodules excepted)."),
+ "C13": (" + re-entrant / multi-threaded stress (block-partition projection)", ""),
+ "C14": (" + the same value held as a subclass instance, SubClass.from_code, dataclasses.replace, copy, deepcopy and the JSON-loaded twin", ""),
+ "C15": (" + every consumer also loads each document after a transit (members sorted / reversed / pretty-printed)", ""),
+ "C16": (" + -e expression shapes (linesep inside nested scopes), programs and relative file names beginning with @ + ~ # = %, the command run in the worker's interpreter mode", ""),
+}
 checks = []
 for pid in sorted(CLAIMED):
     tech, text, note, ref = CLAIMED[pid]
+    tech = tech + EXTRA.get(pid, ("", ""))[0]
+    text = text + EXTRA.get(pid, ("", ""))[1] + COMMON
     checks.append({
         "property_id": pid,
         "quick_cmd": "/usr/bin/python3 vcheck.py check %s --tier quick" % pid,
